@@ -11,8 +11,8 @@ import numpy as np
 from harness import common as C
 
 PROP = "C20"
-TARGETS = ["IbicusModel.Props.C20"]
-GEN = ["Evaluate", "EvaluateConfig"]
+TARGETS = ["IbicusModel.Props.C20", "IbicusModel.Lemmas.GenEvaluateGrid"]  # the audit imports both
+GEN = ["Evaluate", "EvaluateConfig", "EvaluateGrid"]  # EvaluateGrid: grid-level structure (translator/extract_evalgrid.py)
 
 GRIDS = [(1, 1), (1, 3), (2, 2), (3, 1)]
 STATS = {"rows_checked_by_position": 0}
